@@ -35,6 +35,9 @@ def matrix(case):
     s = np.logspace(0, -case["logcond"], p) if p > 1 else np.ones(1)
     D = (U * s) @ V.conj().T * case.get("scale", 1.0) * np.sqrt(n)
     D = D - D.mean(axis=0)
+    for j in range(int(case.get("collinear", 0))):
+        if p - 1 - j >= 1:
+            D[:, p - 1 - j] = D[:, : p - 1 - j] @ rng.normal(size=(p - 1 - j,))
     return D
 
 
@@ -64,7 +67,13 @@ def run_whitener(case):
     C = D.conj().T @ D / n
     ev, V = np.linalg.eigh(C)
     ev = np.clip(ev, 0, None)
-    Ca = (V * ev**alpha) @ V.conj().T
+    coll = bool(case.get("collinear"))
+    if coll:
+        cc += "|collinear"
+        keep = ev > 1e-10 * ev.max()
+        Ca = (V[:, keep] * ev[keep] ** alpha) @ V[:, keep].conj().T  # the power acts on the range of C
+    else:
+        Ca = (V * ev**alpha) @ V.conj().T
     sc = max(ev.max() ** alpha, 1e-300)
     checks = 0
     e = np.abs(Z.conj().T @ Z / n - Ca).max() / sc
@@ -76,6 +85,8 @@ def run_whitener(case):
     checks += 1
     if e > tol * 10:
         F.append(Finding("oracle", "unwhiten", cc, f"inverse_transform_data(transform(X)) differs from X by rel {e:.2e} (alpha={alpha:.3f}, cond(X)={cond:.0e})"))
+    if coll:
+        return {"findings": F, "info": {"oracle_checks": {"n": checks}, "dist": {"kind": "whitener", "cond": "collinear", "alpha": round(alpha, 2), "backend": cc}}}
     if not w.is_identity:
         T = np.asarray(w.T.transpose("feature", "mode").values)
         Ti = np.asarray(w.Tinv.transpose("mode", "feature").values)
@@ -136,6 +147,10 @@ def run_pca(case):
     Vt = np.linalg.svd(D, full_matrices=False)[2][:k].conj().T
     sv = np.linalg.svd(D, compute_uv=False)
     gap = k == p or sv[k] < 0.7 * sv[k - 1]
+    # the dask back-end decomposes with dask's compressed (randomised) SVD whose power iterations resolve a direction only
+    # while (s_k / s_1)^9 stays above rounding level; the exact-subspace claim is checked where the solver is exact or that holds
+    if case["dask"] and k < p and (sv[k - 1] / sv[0]) ** 9 < 1e-10:
+        gap = False
     if gap:
         e = np.abs(V @ V.conj().T - Vt @ Vt.conj().T).max()
         checks += 1
